@@ -100,7 +100,11 @@ def run(case, max_steps=120000):
                 if case['fdur']:
                     await aio.sleep(case['fdur'])
                 if me in fails:
-                    raise FuncBoom(me)
+                    # the wrapped function fails: with an ordinary exception, or with a cancellation that is not
+                    # aimed at the buffer's task (it awaited something that somebody else cancelled)
+                    kind = case.get('func_fail_kind', 'exc')
+                    raise aio.CancelledError('function cancelled') if kind == 'cancel' else \
+                        ProducerBaseBoom(me) if kind == 'base' else FuncBoom(me)
                 rec['ok'] = True
             finally:
                 state['running'] -= 1
